@@ -1,4 +1,5 @@
 import Sourcer.Expr
+import Sourcer.OpTable
 /-
   SPECIFICATION: the documented PEG meaning of the expressions.  Failure carries no position;
   whatever is tried after a failed attempt (next alternative, continuation after an option, a
@@ -141,6 +142,90 @@ def pegSkipTo (P : Program) (run : PRun) (skip : Bool) (e : Nat) : Option Nat :=
       | some .fail => none     -- the synthetic `_ignored` rule is a `Skip`; it cannot fail
   else some e
 
+structure PTableExprs where
+  prefixes : Option Expr
+  operands : Expr
+  postfixes : Option Expr
+  infixes : Option Expr
+
+def ptableExprs (pre : List Expr) (operand : Expr) (mixfix post inf : List Expr) : PTableExprs :=
+  { prefixes := combineRows pre
+    operands := (combineRows (operand :: mixfix)).getD operand
+    postfixes := combineRows post
+    infixes := combineRows inf }
+
+/-- Operator table, operational specification: read `prefix* operand postfix* (infix prefix*
+    operand postfix*)*` with PEG sub-parsers (a failed attempt consumes nothing), building the
+    tree with the operator-precedence stacks; the expression ends after the last complete
+    operand (a dangling operator stays in the input) or before a non-associative conflict. -/
+def pegOT (run : PRun) (T : PTableExprs) : Nat → Phase → OTState → Option Res
+  | 0, _, _ => none
+  | fuel + 1, .pre, st =>
+    match T.prefixes with
+    | none => pegOT run T fuel .operand st
+    | some pe =>
+      match run pe st.pos with
+      | none => none
+      | some .fail => pegOT run T fuel .operand st
+      | some (.ok v p') =>
+        match decodeOp v with
+        | none => none
+        | some o => pegOT run T fuel .pre { st with ops := o :: st.ops, pos := p' }
+  | fuel + 1, .operand, st =>
+    match run T.operands st.pos with
+    | none => none
+    | some .fail =>
+      if st.operands.isEmpty then some .fail
+      else
+        match finishTable st.ops st.operands st.marker with
+        | none => none
+        | some v => some (.ok v.toVal st.outerCp)
+    | some (.ok v p') => pegOT run T fuel .post { st with operands := .leaf v :: st.operands, pos := p' }
+  | fuel + 1, .post, st =>
+    match T.postfixes with
+    | none => pegOT run T fuel .inf { st with marker := st.ops.length, outerCp := st.pos }
+    | some pe =>
+      match run pe st.pos with
+      | none => none
+      | some .fail => pegOT run T fuel .inf { st with marker := st.ops.length, outerCp := st.pos }
+      | some (.ok v p') =>
+        match decodePost v with
+        | none => none
+        | some (prec, op) =>
+          match reducePost prec st.ops st.operands with
+          | none => none
+          | some (ops', operands') =>
+            match operands' with
+            | [] => none
+            | x :: rest =>
+              pegOT run T fuel .post { st with ops := ops', operands := .postfix x prec op :: rest, pos := p' }
+  | fuel + 1, .inf, st =>
+    match T.infixes with
+    | none =>
+      match finishTable st.ops st.operands st.marker with
+      | none => none
+      | some v => some (.ok v.toVal st.pos)
+    | some ie =>
+      match run ie st.pos with
+      | none => none
+      | some .fail =>
+        match finishTable st.ops st.operands st.marker with
+        | none => none
+        | some v => some (.ok v.toVal st.pos)
+      | some (.ok v p') =>
+        match decodeOp v with
+        | none => none
+        | some o =>
+          match reduceInfix o.prec st.ops st.operands with
+          | none => none
+          | some (.conflict ops' operands') =>
+            match finishTable ops' operands' st.marker with
+            | none => none
+            | some tree => some (.ok tree.toVal st.outerCp)
+          | some (.go ops' operands') =>
+            pegOT run T fuel .pre
+              { st with ops := o :: ops', operands := operands', marker := ops'.length, pos := p' }
+
 def peg (P : Program) (inp : List Nat) : Nat → Expr → Nat → Option Res
   | 0, _, _ => none
   | fuel + 1, e, p =>
@@ -208,5 +293,12 @@ def peg (P : Program) (inp : List Nat) : Nat → Expr → Nat → Option Res
     | .backtrack n => if n ≤ p then some (.ok .none (p - n)) else some .fail
     | .fail => some .fail
     | .py c => some (.ok c.toVal p)
+    | .tagged x tag =>
+      match run x p with
+      | none => none
+      | some .fail => some .fail
+      | some (.ok v p') => some (.ok (.tuple (tag.map Val.int ++ [v])) p')
+    | .optable pre operand mixfix post inf =>
+      pegOT run (ptableExprs pre operand mixfix post inf) fuel .pre ⟨[], [], 0, p, p⟩
 
 end Sourcer
